@@ -70,6 +70,16 @@ Definition num_is_neg (v : pval) : bool :=
   | _ => false
   end.
 
+(* `repr(value).startswith("-")` for int/float: a6af5a7 parenthesises exactly these constants when they are operands
+   (value < 0 missed -0.0) *)
+Definition prints_with_sign (v : pval) : bool :=
+  match v with
+  | PInt z => Z.ltb z 0%Z
+  | PFloat neg _ => neg
+  | PInf neg => neg
+  | _ => false
+  end.
+
 (* `-value`; None for str / None (TypeError) *)
 Definition py_neg (v : pval) : option pval :=
   match v with
